@@ -1238,7 +1238,7 @@ func (l *loopInfo) indexBoundedBy(idx, recv ssa.Value) string {
 		// upward: i < Len(recv) (or i < N with N = Len(recv) computed before the loop)
 		if bo.Op == token.LSS && bo.X == idx {
 			bound := bo.Y
-			if !(lenLike(bound, recv, 0) || madeWithLenValue(recv, bound) || lenOfSliceSizedBy(bound, recv)) {
+			if !(lenLike(bound, recv, 0) || madeWithLenValue(recv, bound) || lenOfSliceSizedBy(bound, recv) || lenEqualBy(bound, recv, l.header)) {
 				continue
 			}
 			// idx is φ (for loops) or φ+1 (range loops) with φ starting at >= 0 (resp. -1) and stepping by +1.. on every back edge
@@ -1315,4 +1315,32 @@ func (l *loopInfo) indexBoundedBy(idx, recv ssa.Value) string {
 		}
 	}
 	return ""
+}
+
+// lenEqualBy: bound is the length of another container whose length was compared with recv's on
+// the way to block b, and b lies on the "equal" side (two arrays walked in step after
+// `if a.Len() != b.Len() { return false }`).
+func lenEqualBy(bound, recv ssa.Value, b *ssa.BasicBlock) bool {
+	other := lenRecv(bound)
+	if other == nil {
+		// N := a.Len() hoisted into a local and used as the bound
+		return false
+	}
+	if other == recv {
+		return true
+	}
+	return domGuard(b, func(cond ssa.Value) (int, bool) {
+		bo, ok := cond.(*ssa.BinOp)
+		if !ok || (bo.Op != token.NEQ && bo.Op != token.EQL) {
+			return 0, false
+		}
+		x, y := lenRecv(bo.X), lenRecv(bo.Y)
+		if x == nil || y == nil || !((x == other && y == recv) || (x == recv && y == other)) {
+			return 0, false
+		}
+		if bo.Op == token.NEQ {
+			return 1, true
+		}
+		return 0, true
+	})
 }
